@@ -104,3 +104,9 @@ claim("C06",
   "Trusted: go/ssa, SCCP evaluator. Not covered: CR/NUL (excluded by the property), multi-part name segmentation in QuoteIdent beyond routing, malformed UTF-8.",
   "static analysis: constant extraction of replacer pairs + SCCP extraction of the scanner's unescape/special-rune tables and of the identifier predicates",
   "DESIGN.md 4/C06")
+
+claim("C04",
+  "Totality of parsing is decided construct by construct over everything the parser entry points can reach: index/slice bounds, integer divisions, comma-ok results and single-result assertions by guard dominance and dynamic-type sets; every explicit panic shown unreachable (registration conflicts reachable only from init; the sign-branch `unexpected literal` by computing, per admitted first token, the set of node types the recursive call can return); token and rune push-back depth bounded by the 3-slot rings through an interprocedural bounded counter with error-correlated summaries; every loop that reads input has a dead back edge once reads report end of input (constant propagation with reads bound to EOF), other loops are bounded by in-memory data; statement parsers return a statement or an error. Time 'proportional to the input length', stack exhaustion on deep nesting and panics inside the standard library are NOT covered.",
+  "Trusted: go/ssa, go/cfg, SCCP evaluator, the contract table of variable-index sites; a pushed-back token re-scans as the same token. Not covered: progress of the recursion cycles (each consumes a token) is argued, not decided; regexp.Compile/strconv behaviour.",
+  "static analysis: guard dominance + dynamic-type sets + bounded push-back typestate + SCCP end-of-input loop exit",
+  "DESIGN.md 4/C04, 3/E2 E3 E5")
